@@ -264,8 +264,8 @@ class Gen:
 MACROS = [
     # (tokens of a directive; ('cont','') marks a place where a backslash-newline may be put)
     [P('#'), I('define'), I('INC'), ('glue', ''), P('('), I('x'), P(')'), P('('), P('('), I('x'), P(')'), P('+'), ('num', '1'), P(')')],
-    [P('#'), I('define'), I('SWAP'), ('glue', ''), P('('), I('x'), P(','), I('y'), P(')'), ('cont', ''), K('do'), P('{'), ('cont', ''), K('int'), I('t_'), P('='),
-     I('x'), P(';'), ('cont', ''), I('x'), P('='), I('y'), P(';'), ('cont', ''), I('y'), P('='), I('t_'), P(';'), ('cont', ''), P('}'), K('while'),
+    [P('#'), I('define'), I('SWAP'), ('glue', ''), P('('), I('x'), P(','), I('y'), P(')'), ('cont', ''), K('do'), P('{'), ('slot', ''), ('cont', ''), K('int'), I('t_'), P('='),
+     I('x'), P(';'), ('slot', ''), ('cont', ''), I('x'), P('='), I('y'), P(';'), ('cont', ''), I('y'), P('='), I('t_'), P(';'), ('slot', ''), ('cont', ''), P('}'), K('while'),
      P('('), ('num', '0'), P(')')],
     [P('#'), I('define'), I('EMPTY')],
     [P('#'), I('define'), I('TWICE'), ('glue', ''), P('('), I('x'), P(')'), ('cont', ''), P('('), ('num', '2'), P('*'), P('('), I('x'), P(')'), P(')')],
